@@ -34,6 +34,10 @@ def _load_repo():
 
 
 # --------------------------------------------------------------------------- canonical content
+# members outside the declared property list that the class writes / reads with code of its own
+EXTRA_MEMBERS = {'HeaderInformationBlock': ('reference_parameters',)}
+
+
 def canon(obj, drop: set | frozenset = frozenset()):
     """Canonical, JSON-able form of a container / data type value, read through the property descriptors."""
     from sdc11073.xml_types import xml_structure as xs
@@ -69,6 +73,18 @@ def canon(obj, drop: set | frozenset = frozenset()):
             else:
                 out[name] = canon(val)
         out['__cls__'] = type(obj).__name__
+        for name in EXTRA_MEMBERS.get(type(obj).__name__, ()):   # state that custom writers / readers use
+            val = getattr(obj, name, None)
+            if val:
+                # the wsa:IsReferenceParameter marker is wire syntax of the header, not part of the parameter's value
+                items = []
+                for el in val:
+                    cp = copy.deepcopy(el)
+                    for k in list(cp.attrib):
+                        if k.endswith('}IsReferenceParameter'):
+                            del cp.attrib[k]
+                    items.append(canon(cp))
+                out['+' + name] = items
         return out
     if hasattr(obj, 'value') and hasattr(obj, '__iter__'):  # ExtensionLocalValue
         return [canon(x) for x in obj]
